@@ -971,8 +971,15 @@ class StreamWorld(BaseWorld):
         k = r.choice([0, 1, 1, 2, 2, 2, 3, 4])
         pool = sorted(self.streams)
         inlets = [r.choice(pool) for _ in range(k)]
-        return {'stream': recv, 'inlets': inlets, 'energy_balance': r.random() < 0.4,
-                'conserve_phases': r.random() < 0.15, 'Q': 0.0}
+        ev = {'stream': recv, 'inlets': inlets, 'energy_balance': r.random() < 0.4,
+              'conserve_phases': r.random() < 0.15, 'Q': 0.0}
+        form = r.choice(['list', 'list', 'list', 'tuple', 'generator'])
+        if form != 'list' and self.prop == 'C01' and not (form == 'generator' and (ev['conserve_phases'] or ev['energy_balance'])):
+            # `others : Iterable[Stream]`.  (With conserve_phases, and on the energy-balance fallback path, mix_from
+            # iterates `others` a second time - a one-shot iterable is then empty; observed on the unchanged tree
+            # and not generated: C01 is about the material balance of the plain path.)
+            ev['form'] = form
+        return ev
 
     def gen_sum(self, r):
         if len(self.streams) >= 14:
@@ -3128,6 +3135,10 @@ class StreamWorld(BaseWorld):
         snaps = {n: self.project(n) for n in set(inlets)}
         before = self.project(recv)
         objs = [self.streams[n] for n in inlets]
+        if ev.get('form') == 'tuple':
+            objs = tuple(objs)
+        elif ev.get('form') == 'generator':
+            objs = (i for i in list(objs))
         eb = ev['energy_balance']
         r = self.call(ev, lambda: s.mix_from(objs, energy_balance=eb, Q=ev.get('Q', 0.0),
                                              conserve_phases=ev.get('conserve_phases', False)))
